@@ -47,7 +47,28 @@ func Print(p *Program, lay Layout) string {
 		pr.blank()
 		pr.decl(d)
 	}
-	return strings.Join(pr.lines, "\n") + "\n"
+	text := strings.Join(pr.lines, "\n")
+	// how the file ends is layout too: with or without a final newline, after a last line that holds
+	// only a comment or only spaces (longer than the indentation of the last block), extra blank lines
+	switch lay.Choice("file-end", 9) {
+	case 1:
+		return text
+	case 2:
+		return text + "\n// end of file"
+	case 3:
+		return text + "\n  // done"
+	case 4:
+		return text + "\n/* end of file */"
+	case 5:
+		return text + "\n        "
+	case 6:
+		return text + "\n\n\n"
+	case 7:
+		return text + " "
+	case 8:
+		return text + "\n\t"
+	}
+	return text + "\n"
 }
 
 // PrintDecl renders one declaration alone (canonical layout unless lay given).
